@@ -130,13 +130,13 @@ abbrev CubicF := Pt Float × Pt Float × Pt Float × Pt Float
 
 /-- the quadratic cutting loop on `Float` with the generated `quadraticBezierSplit` -/
 def quadCutsF (r : QuadF) (ts : List Float) : List QuadF × QuadF :=
-  cutsGen (· - ·) (· / ·) 1.0
+  cutsGen (fun a b => a < b) (· - ·) (· / ·) 1.0
     (fun (q : QuadF) t => let s := GenF.quadraticBezierSplit q.1 q.2.1 q.2.2 t; (s.1, s.2.1, s.2.2.1))
     (fun (q : QuadF) t => let s := GenF.quadraticBezierSplit q.1 q.2.1 q.2.2 t; (s.2.2.2.1, s.2.2.2.2.1, s.2.2.2.2.2))
     r 0.0 ts
 
 def cubeCutsF (r : CubicF) (ts : List Float) : List CubicF × CubicF :=
-  cutsGen (· - ·) (· / ·) 1.0
+  cutsGen (fun a b => a < b) (· - ·) (· / ·) 1.0
     (fun (q : CubicF) t => let s := GenF.cubicBezierSplit q.1 q.2.1 q.2.2.1 q.2.2.2 t; (s.1, s.2.1, s.2.2.1, s.2.2.2.1))
     (fun (q : CubicF) t =>
       let s := GenF.cubicBezierSplit q.1 q.2.1 q.2.2.1 q.2.2.2 t
